@@ -286,8 +286,9 @@ def check_property(pid, tier, seed):
             'wall_s': round(wall, 2),
             'violations': len(violations),
         }
-        os.makedirs(os.path.join(ROOT, 'evidence'), exist_ok=True)
-        json.dump(evidence, open(os.path.join(ROOT, 'evidence', f'{pid}.json'), 'w'), indent=1, default=repr)
+        evdir = os.environ.get('VERIF_EVIDENCE_DIR') or os.path.join(ROOT, 'evidence')      # override only for sizing runs on scratch checkouts
+        os.makedirs(evdir, exist_ok=True)
+        json.dump(evidence, open(os.path.join(evdir, f'{pid}.json'), 'w'), indent=1, default=repr)
         # 7. report
         log(f'[{pid}] tier={tier} obligations={obligations} discharged={discharged} paths={tot_paths} '
             f'solver_queries={tot_solver} solver_time={evidence["coverage"]["solver_time_s"]}s wall={wall:.1f}s')
